@@ -30,7 +30,8 @@ THEOREMS = [
     "Cspuz.C16.C16_url_roundtrip_norinori",
     "Cspuz.C16.C16_url_roundtrip_compass",
     "Cspuz.C16.C16_pzpr_grids",
-    "Cspuz.C16.C16_pzpr_rooms_partial",
+    "Cspuz.C16.C16_pzpr_rooms",
+    "Cspuz.C16.C16_pzpr_partition",
     "Cspuz.C16.C16_pzpr_star_battle",
     "Cspuz.C16.C16_pzpr_aquarium",
     "Cspuz.C16.C16_pzpr_compass",
@@ -610,7 +611,7 @@ def correspond(ctx):
     rng = ctx.rng
     drv = core.Driver()
     from cspuz.problem_serializer import get_puzzle_info_from_url
-    n_per = ctx.n(1000, 8000)
+    n_per = ctx.n(1000, 30000)
     probs = []
     for p in ALL:
         for _ in range(n_per):
@@ -731,7 +732,7 @@ def _legacy_item(rng, empty, bad):
 def _correspond_legacy(ctx, rng, drv):
     from cspuz.puzzle import util
     lines, ops = [], []
-    for _ in range(ctx.n(3000, 30000)):
+    for _ in range(ctx.n(3000, 100000)):
         bad = rng.random() < 0.3
         empty = rng.choice([None, None, -1, 0, ".."])
         marker = rng.choice(["g"] * 6 + list("0az9k") + (["G", "-"] if bad else []))
@@ -753,7 +754,7 @@ def _correspond_legacy(ctx, rng, drv):
             continue
         ops.append(("encarr", arr, marker, empty, dim))
         lines.append(line)
-    for _ in range(ctx.n(1500, 12000)):
+    for _ in range(ctx.n(1500, 40000)):
         h, w = _dims(rng, 7)
         rooms = sc.shuffled_rooms(rng, sc.random_partition(rng, h, w))
         r = rng.random()
